@@ -4,8 +4,10 @@ mod astcheck;
 mod astsexp;
 mod devtools;
 mod exec;
+mod lua51check;
 mod luaucheck;
 mod progen;
+mod progen_c06;
 mod model;
 mod props;
 mod report;
@@ -23,6 +25,9 @@ fn main() {
     }
     if args[1] == "progtest" {
         std::process::exit(devtools::progtest(&args[2..]));
+    }
+    if args[1] == "progtest06" {
+        std::process::exit(devtools::progtest06(&args[2..]));
     }
     if args[1] == "astcheck" {
         // self-test of the shared AST codec (astsexp.rs <-> Shared/AstSexp.lean)
